@@ -17,13 +17,14 @@ fn main() {
         "sizes" => {
             for level in 0..2 {
                 println!(
-                    "level {level}: layouts={} m1={} m2={} m3={} m4={} m5={}",
+                    "level {level}: layouts={} m1={} m2={} m3={} m4={} m5={} m6={}",
                     gen::layouts(level).len(),
                     gen::m1(level).len(),
                     gen::m2(level).len(),
                     gen::m3(level).len(),
                     gen::m4(level).len(),
-                    gen::m5(level).len()
+                    gen::m5(level).len(),
+                    gen::m6(level).len()
                 );
             }
         }
